@@ -37,6 +37,7 @@ func ruleRefNames(c *core.Ctx) {
 			return o
 		})
 		key := fmt.Sprintf("$ref %q + <name>", cs.file+"#"+cs.prefix)
+		noteRuns(c, runs)
 		if !complete {
 			c.Undecided("A-REFNAMES", fn, key, "", "fork budget")
 			continue
